@@ -1,5 +1,5 @@
 """C01 — a RaggedArray holds exactly the rows it was built from."""
-import os, tempfile, shutil
+import os, tempfile, shutil, warnings
 import numpy as np
 import engine, gens
 from engine import canon, guarded, refuse
@@ -146,6 +146,12 @@ def _other_dtype(dt):
     return {"bool": "int8", "float32": "float64", "float64": "float32"}.get(dt, "int64" if dt != "int64" else "float64")
 
 
+def _safe_other(dt):
+    """another element type that holds every value of dt (the conversion of values that do not fit is not C01's subject)"""
+    od = _other_dtype(dt)
+    return od if np.can_cast(np.dtype(dt), np.dtype(od), "safe") else {"float64": "float64", "uint64": "float64"}.get(dt, dt)
+
+
 def run_impl(p):
     from npstructures import RaggedArray, RaggedShape
     if p["kind"] == "shape":
@@ -232,6 +238,21 @@ def run_impl(p):
                 return RaggedArray(rr)
             if sum(p["lens"]) > 0:
                 o["from_ndarray_rows"] = guarded(from_ndarray_rows)
+            def from_ragged():
+                # the rows given as a RaggedArray (a sequence of rows like any other), with an element type: the new array has that
+                # type and owns its cells (a write into either leaves the other alone)
+                od = _safe_other(p["dtype"])
+                src = RaggedArray([list(r) for r in rows], dtype=p["dtype"])
+                new, same_t = RaggedArray(src, dtype=od), RaggedArray(src, dtype=p["dtype"])
+                res = [str(new.dtype), new.tolist(), str(same_t.dtype), same_t.tolist()]
+                if src.size:
+                    before = np.asarray(src.ravel()).tobytes()
+                    new.ravel()[...] = 1; same_t.fill(1)
+                    res.append(np.asarray(src.ravel()).tobytes() == before)
+                    src.fill(0)
+                    res.append([bool(np.all(np.asarray(new.ravel()) == 1)), bool(np.all(np.asarray(same_t.ravel()) == 1))])
+                return res
+            o["from_ragged"] = guarded(from_ragged)
             return o
         return guarded(f)
     if p["kind"] == "flat":
@@ -331,6 +352,14 @@ def oracle(p):
             o["numpy_roundtrip_rows"] = refuse()
         if sum(lens) > 0:
             o["from_ndarray_rows"] = o["tolist"]
+        od = _safe_other(p["dtype"])
+        with np.errstate(all="ignore"), warnings.catch_warnings():
+            warnings.simplefilter("ignore")
+            res = [str(np.dtype(od)), [np.array(r, dtype=p["dtype"]).astype(od).tolist() for r in rows],
+                   str(np.dtype(p["dtype"])), [np.array(r, dtype=p["dtype"]).tolist() for r in rows]]
+        if sum(lens) > 0:
+            res += [True, [True, True]]
+        o["from_ragged"] = canon(res)
     return o
 
 
